@@ -15,8 +15,8 @@ RULE = ("segments of every class (incl. cubics with loops/cusps, arcs with sub-s
 ASSUMPTIONS = ["Bezier reversed/split: rounding bound; interior Bezier crops (t1 relocated by root finding) 1e-8*size; arcs 1e-7*size "
                "(2e-4*size in the exactly-fitting / half-ellipse window, see C04)",
                "path crop length compared to length(T0,T1) to 1e-6 relative (C06 owns length)"]
-CONFIGS = ['scipy']
-BUDGET = {'quick': 20000, 'thorough': 300000}
+CONFIGS = ['scipy', 'noscipy']
+BUDGET = {'quick': {'scipy': 20000, 'noscipy': 240}, 'thorough': {'scipy': 300000, 'noscipy': 8000}}
 REQUIRED = ['segment_obtained_from_reversed', 'seg:L', 'seg:Q', 'seg:C', 'seg:A', 'path', 'path:wraparound', 'path:repeated_segment', 'path:joint_T', 'interior_crop']
 TIME_LIMIT = {'quick': 250, 'thorough': 3300}
 
@@ -30,6 +30,15 @@ def strategy(tier, config):
     @st.composite
     def s(draw):
         what = draw(st.sampled_from(['seg', 'seg', 'seg', 'path', 'path']))
+        if config == 'noscipy':
+            # without scipy only the length clauses differ (pure-Python fallback, slow at large scales): small paths of lines and
+            # Beziers, gently bent ones included, at unit scale
+            closed = draw(st.booleans())
+            specs = draw(gen.chain_specs(min_size=2, max_size=4, closed=closed, arcs=False, scale=draw(st.sampled_from([1e-2, 1.0, 1.0])),
+                                         classes=draw(st.sampled_from([None, ['nearlinear', 'generic'], ['nearlinear']]))))
+            T0, T1 = draw(tpar), draw(tpar)
+            jsel = draw(st.lists(st.integers(0, 12), min_size=2, max_size=2))
+            return {'what': 'path', 'segs': specs, 'T0': T0, 'T1': T1, 'jsel': jsel, 'use_joint': draw(st.sampled_from([0, 0, 1, 2, 3]))}
         if what == 'seg':
             if draw(st.integers(0, 3)) == 0:
                 a = draw(gen.arc_center_form(max_ecc=50))
@@ -268,5 +277,16 @@ def check_path(case, ctx):
     spans = sum(1 for k in range(n) if (cum[k] < max(T0, T1) and cum[k + 1] > min(T0, T1))) if not wrap else n
     if spans >= 2 or wrap:
         ctx.nontrivial()
-    ctx.check(abs(got - want) <= 1e-6 * Ltot + 4 * ptol, 'path/cropped/length/' + tag,
+    # where the speed of a Bezier segment (nearly) vanishes, length() itself is only accurate to C06's 5e-3 (numerical
+    # integration across the kink, pure-Python fallback above all): the two lengths are then compared to that accuracy
+    ltol = 1e-6 * Ltot
+    from vp.props import c06
+    for sp in specs:
+        if sp[0] in 'QC':
+            vmin, _tm, vmax = c06.bez_speed_min([gen.C(p) for p in sp[1:]], 0.0, 1.0)
+            if vmax > 0 and vmin <= 1e-2 * vmax:
+                ltol = 5e-3 * Ltot
+                ctx.count('path_with_near_singular_speed')
+                break
+    ctx.check(abs(got - want) <= ltol + 4 * ptol, 'path/cropped/length/' + tag,
               'cropped(%r,%r).length()=%r but the path length between them is %r (total %r)' % (T0, T1, got, want, Ltot))
